@@ -18,6 +18,9 @@ fn parse_file_context(
     language_type: SupportedLanguage,
     dir_entry: &DirEntry,
 ) -> anyhow::Result<Option<ParseFileContext>> {
+    // verification seam (off by default): route the source read through the simulator's fs
+    #[cfg(typeshare_verif)]
+    use verif_rt::shim as std;
     let crate_name = if multi_file {
         let Some(crate_name) = CrateName::find_crate_name(dir_entry.path()) else {
             return Ok(None);
@@ -105,6 +108,15 @@ pub fn parallel_parse(
     walker_builder: WalkBuilder,
     language_type: SupportedLanguage,
 ) -> anyhow::Result<BTreeMap<CrateName, ParsedData>> {
+    // verification seam (off by default): scheduler-owned threads and channel, walker thread count
+    #[cfg(typeshare_verif)]
+    use verif_rt::{channel::bounded, thread};
+    #[cfg(typeshare_verif)]
+    let walker_builder = {
+        let mut walker_builder = walker_builder;
+        walker_builder.threads(verif_rt::walker_threads());
+        walker_builder
+    };
     let (tx, rx) = bounded::<anyhow::Result<ParsedData>>(100);
 
     let collector_thread = thread::spawn(move || {
